@@ -4,7 +4,8 @@
      notified and EVERY THREAD WAITING ON THEM IS RELEASED, while ANCESTORS AND SIBLINGS ARE
      UNAFFECTED …"
 
-  Model: `NsyncVerif.Model.Note` (note.c after the repair of F5, and the `nsync_wait_n` path of
+  Model: `NsyncVerif.Model.Note` (note.c after the repair of F5 and of F4 / F7 —
+  /verif/fixes/F4F7/note_fix.diff —, and the `nsync_wait_n` path of
   `nsync_note_wait`: the waiter records `nw<r>`, events `stW`, `sem v`, `sem pd_enter/pd_ret`).
   All theorems quantify over every reachable state (every forest, number of threads, schedule,
   clock).
@@ -25,22 +26,25 @@
           unlinked by the wake loop, or its V is owed by a thread at the V, or its V was performed.
       `C08_notified_waiters_in_progress`, `C08_waiting_record` — the two facts behind it.
       `C08_complete_released` — the completeness clause for the DESCENDANTS, flags and waiters
-          together.  The hypothesis `ReachableH` (no adoption by nsync_note_free under an already
-          notified parent, i.e. defect F4 excluded) is used in exactly one place: to know that the
-          descendants' flags are set (`C08_complete_partial`: under `ReachableH` a notified note
-          without activation in progress has no descendant left in the current forest — each was
-          notified and disconnected).  The release of the waiters of EVERY notified note, former
-          descendants included, is `C08_waiters_released` and needs no hypothesis.
-          `C08_complete_full` stays refuted (`C08_complete_witness`, Props/C08.lean).
+          together, in EVERY reachable state (the hypothesis `ReachableH` — no adoption under an
+          already notified parent, i.e. defect F4 excluded — is gone with the repair of F4 / F7:
+          `C08_complete`, Props/C08.lean).
+      `C08_complete_full_holds : C08_complete_full` — the statement in terms of threads: once no
+          thread is DELIVERING any more (inside notify / note_notify_child / nsync_note_free and
+          not parked in a WAIT_FOR_NO_CHILDREN whose condition is false), every descendant of a
+          notified note is notified and has no waiter record that is still waiting.  It was
+          refuted on the unrepaired code (F4: a thread parked for ever above an un-notified
+          adopted note); now a parked thread always has a delivering thread below it
+          (`no_wait_blocked_all`, Proofs/NoteFixP7.lean — I2 and the exact `disconnecting` count).
       Limit of the model: the semaphore count is not part of the state (A3: `pd_ret 0` may
           happen at any time), so "the V has been performed" is the ghost counter `posted ≥ 1` of
           the record; that the sleeper then does return from P is the semaphore's contract.
   * Unaffected, w.r.t. the CURRENT forest:
       `C08_child_iff_parent` — the converse of `InvT` (and `InvT`): `c ∈ p->children ↔
           c->parent == p`, children lists have no duplicates (`C08_children_nodup`).  It rests on
-          the locks (`LockInv`), on the `disconnecting` counters (`InvForest.disc`) and on the local
-          `parent` of notify / nsync_note_free being stale only when the note has been
-          disconnected (`InvForest.stale`).
+          the locks (`LockInv`), on the `disconnecting` counters (`InvForest.cnt`) and on the local
+          `parent` of notify / nsync_note_free being the note's parent until the thread itself has
+          seen the note disconnected (`InvForest.linked`, `InvForest.stale`).
       `C08_unaffected_full_holds : C08_unaffected_full` — proved: a flag is set only for a note
           that is, at the time of the store, the note `n` of the `notify (n)` the storing thread is
           in or a descendant of `n` in the current forest (or by nsync_note_new for the unpublished
@@ -49,10 +53,10 @@
           grandchild adopted by the grand-parent (nsync_note_free of the note in between) IS a
           descendant of the grand-parent from then on; the statement is about the forest at the
           time of each store, so this is consistent, and no corner was found where it fails.
-  * Non-vacuity: `example`s by `decide` on two traces recorded from the unmodified library
-    (Proofs/NoteRelTraces.lean).
+  * Non-vacuity: `example`s by `decide` on two traces recorded from the library
+    (Proofs/NoteRelTraces.lean; both are accepted unchanged by the model of the repaired code).
 -/
-import NsyncVerif.Proofs.NoteRelF5
+import NsyncVerif.Proofs.NoteFixP7
 import NsyncVerif.Proofs.NoteRelTraces
 import NsyncVerif.Props.C08
 
@@ -73,7 +77,7 @@ theorem Blocked.mustQ {s : State} {r : Rid} (h : Blocked s r) :
   obtain ⟨m, wdl, h | h⟩ := h <;> rw [h] <;> rfl
 
 /-- C08: a notified note with a non-empty `waiters` list has a thread inside the loop of
-    `note_notify_child` that wakes its waiters (note.c:90-95) — an activation in progress. -/
+    `note_notify_child` that wakes its waiters (note.c:114-119) — an activation in progress. -/
 theorem C08_notified_waiters_in_progress {s : State} (hr : Reachable s) (d : NoteId)
     (hn : (s.notes d).notified = true) (hw : (s.notes d).waiters ≠ []) :
     ∃ t, WakeLoop (s.pc t) d ∧ Active (s.pc t) d := by
@@ -155,21 +159,48 @@ theorem C08_waiters_released {s : State} (hr : Reachable s) (d : NoteId)
   · exact absurd (by rw [ht]; exact Or.inl ⟨by rw [hf, hd], rfl⟩) (hq t)
   · exact h
 
-/-- C08, completeness of delivery for the descendants, flags and waiters together: in executions
-    in which `nsync_note_free` never adopts a child under an already notified parent
-    (`ReachableH`, used only for the flags: `C08_complete_partial`), once no thread has an
-    activation of `note_notify_child` on the notified note `n` past the store any more, every
-    descendant `d` of `n` in the current forest is notified, has an empty `waiters` list, and every
-    waiter record of `d` is released. -/
-theorem C08_complete_released {s : State} (h : ReachableH s) (n : NoteId)
+/-- C08, completeness of delivery for the descendants, flags and waiters together, in EVERY
+    reachable state: once no thread has an activation of `note_notify_child` on the notified note
+    `n` past the store any more, every descendant `d` of `n` in the current forest is notified,
+    has an empty `waiters` list, and every waiter record of `d` is released. -/
+theorem C08_complete_released {s : State} (hr : Reachable s) (n : NoteId)
     (hn : (s.notes n).notified = true) (hq : ∀ t, ¬ Active (s.pc t) n) (d : NoteId)
     (hd : Anc s n d) :
     (s.notes d).notified = true ∧ (s.notes d).waiters = [] ∧
     ∀ r, (s.recs r).used = true → (s.recs r).note = d →
       (s.recs r).waiting = false ∧ (Blocked s r → 1 ≤ (s.recs r).posted) := by
-  obtain ⟨hdn, hdf⟩ := (C08_complete_partial h n hn hq).2 d hd
+  obtain ⟨hdn, hdf⟩ := (C08_complete hr n hn hq).2 d hd
   subst hdn
-  exact ⟨hdf, C08_waiters_released h.reachable d hdf hq⟩
+  exact ⟨hdf, C08_waiters_released hr d hdf hq⟩
+
+/-- The thread is still delivering a notification / disconnecting a note: it is inside `notify`,
+    `note_notify_child` or `nsync_note_free`, and not parked in a WAIT_FOR_NO_CHILDREN whose
+    condition is false (where it only waits for other threads). -/
+def Delivering (s : State) (t : Tid) : Prop :=
+  InNotify (s.pc t) = true ∧ ¬ WaitBlocked s t
+
+/-- The statement at full strength: once no thread is delivering any more, every descendant `d`
+    of a notified note `n` is notified and has no waiter record that is still waiting. -/
+def C08_complete_full : Prop :=
+  ∀ s, Reachable s → (∀ t, ¬ Delivering s t) →
+    ∀ n d, (s.notes n).notified = true → Anc s n d →
+      (s.notes d).notified = true ∧
+      ∀ r, (s.recs r).used = true → (s.recs r).note = d → (s.recs r).waiting = false
+
+/-- … holds for the repaired code: when nobody is delivering, nobody is inside `notify` /
+    `note_notify_child` / `nsync_note_free` at all (a parked thread always has a delivering thread
+    below it), so no activation is in progress and `C08_complete_released` applies. -/
+theorem C08_complete_full_holds : C08_complete_full := by
+  intro s hr hno n d hn hd
+  have hnone : ∀ t, InNotify (s.pc t) = false := by
+    refine no_wait_blocked_all hr (fun u hu => ?_)
+    exact Classical.byContradiction (fun hw => hno u ⟨hu, hw⟩)
+  have hq : ∀ t, ¬ Active (s.pc t) n := by
+    intro t h
+    have := hnone t
+    cases hpc : s.pc t <;> rw [hpc] at h this <;> simp [Active, InNotify] at h this
+  obtain ⟨h1, _, h3⟩ := C08_complete_released hr n hn hq d hd
+  exact ⟨h1, fun r hu hr' => (h3 r hu hr').1⟩
 
 /-! ### The current forest -/
 
@@ -365,7 +396,8 @@ theorem pc_of_not_actor_rel {evs : List Event} {s0 s : State} (hr : run s0 evs =
 theorem release_prefix_okH : (runH init (Traces.releaseTrace.take 101)).isSome = true := by
   decide
 
-/-- All hypotheses of `C08_complete_released` (with `n = d = note0`) and of
+/-- All hypotheses of `C08_complete_released` (with `n = d = note0`; even the former hypothesis
+    `ReachableH`, no longer needed) and of
     `C08_waiters_released` (with `d = note1`, the former child of note0, notified and disconnected
     by `notify (note0)`) hold together in a reachable state (the state of the example above):
     `ReachableH`, both notes notified, NO thread at all with an activation on note0 or note1; the
